@@ -24,6 +24,7 @@ struct Kind {
   virtual std::string initial(int payload) = 0;
   virtual bool swap(void* a, void* b) { (void)a; (void)b; return false; }   // true if the kind has a swap operation
   virtual void clear(void* h, std::string& model) = 0;                      // drop the value through this handle (clear() / null assignment)
+  virtual bool assignFromOwnPayload(void* h, int which, std::string& model) { (void)h; (void)which; (void)model; return false; }   // h = <a value that lives inside h's own payload>; false if the kind has none
   virtual int objectId(void* h) { (void)h; return -1; }                     // RefCount::Ptr: id of the referenced object
 };
 std::string payloadText(int p) { return p == 0 ? "payload-zero-0123456789" : p == 2 ? std::string(300, 'L') + "ong-payload" : "second"; }   // 2: a payload with a capacity of some hundred bytes
@@ -83,7 +84,7 @@ struct KPtr : Kind {
 };
 struct KXml : Kind {
   static std::string show(const Xml::Variant& v) { if (v.isText()) { String s = v.toString(); return "T:" + std::string((const char*)s, s.length()); } if (v.isElement()) { const Xml::Element& e = v.toElement(); return "E:" + std::string((const char*)e.type, e.type.length()) + "/" + std::to_string(e.attributes.size()); } return "null"; }
-  void* make(int p) override { if (p == 0) { Xml::Element e; e.line = e.column = 0; e.type = String("elem"); e.attributes.append(String("k"), String("v")); return new Xml::Variant(e); } return new Xml::Variant(String("text")); }
+  void* make(int p) override { if (p == 0) { Xml::Element e; e.line = e.column = 0; e.type = String("elem"); e.attributes.append(String("k"), String("v")); e.content.append(Xml::Variant(String("child"))); return new Xml::Variant(e); } return new Xml::Variant(String("text")); }
   void* copy(void* s) override { return new Xml::Variant(*(Xml::Variant*)s); }
   void destroy(void* h) override { delete (Xml::Variant*)h; }
   void assign(void* d, void* s) override { *(Xml::Variant*)d = *(Xml::Variant*)s; }
@@ -95,6 +96,13 @@ struct KXml : Kind {
   std::string read(void* h) override { return show(*(const Xml::Variant*)h); }
   void clear(void* h, std::string& m) override { ((Xml::Variant*)h)->clear(); m = "null"; }
   std::string initial(int p) override { return p == 0 ? "E:elem/1" : "T:text"; }
+  bool assignFromOwnPayload(void* h, int which, std::string& m) override {
+    Xml::Variant& v = *(Xml::Variant*)h; if (!v.isElement()) return false;
+    const Xml::Element& e = ((const Xml::Variant&)v).toElement();
+    if (which & 1) { if (e.content.isEmpty()) return false; const Xml::Variant& child = e.content.front(); m = show(child); v = child; }   // the element's own child
+    else { m = "T:" + std::string((const char*)e.type, e.type.length()); v = e.type; }                                                   // the element's own name
+    return true;
+  }
 };
 
 Kind* kindOf(int k) { static KString a; static KVarString b; static KVarList c; static KPtr d; static KXml e; switch (k) { case 0: return &a; case 1: return &b; case 2: return &c; case 3: return &d; default: return &e; } }
